@@ -1039,6 +1039,10 @@ func (self *LockManager) ProcessLockData(command *protocol.LockCommand, lock *Lo
 			lock.SaveRecoverData(currentLockData, recoverValue)
 		}
 	case protocol.LOCK_DATA_COMMAND_TYPE_APPEND:
+		if self.currentData != nil && self.currentData.GetData() != nil && self.currentData.IsArrayValue() {
+			command.Data = nil
+			return
+		}
 		if self.currentData == nil || self.currentData.GetData() == nil {
 			lockCommandData.Data[4] = protocol.LOCK_DATA_COMMAND_TYPE_SET
 			self.currentData = NewLockManagerData(lockCommandData.Data, protocol.LOCK_DATA_COMMAND_TYPE_APPEND, command.Flag&protocol.LOCK_FLAG_FROM_AOF != 0)
@@ -1056,7 +1060,7 @@ func (self *LockManager) ProcessLockData(command *protocol.LockCommand, lock *Lo
 		}
 	case protocol.LOCK_DATA_COMMAND_TYPE_SHIFT:
 		lengthValue := int(lockCommandData.GetShiftLengthValue())
-		if self.currentData != nil && self.currentData.GetData() != nil && lengthValue > 0 {
+		if self.currentData != nil && self.currentData.GetData() != nil && lengthValue > 0 && !self.currentData.IsArrayValue() {
 			if lengthValue > currentLockData.GetValueSize() {
 				lengthValue = currentLockData.GetValueSize()
 			}
